@@ -235,18 +235,17 @@ var knownPure = map[string]bool{
 	"strconv.Itoa": true, "strconv.Quote": true, "strconv.FormatInt": true, "strconv.ParseFloat": true, "strconv.ParseInt": true, "strconv.Atoi": true,
 	"errors.New": true, "fmt.Sprintf": true, "fmt.Errorf": true, "fmt.Sprint": true,
 	"bytes.Replace": true, "bytes.ToLower": true, "bytes.TrimSpace": true, "bytes.Repeat": true, "bytes.Join": true, "bytes.Fields": true,
-	"bytes.ReplaceAll": true, "bytes.Split": true, "bytes.Title": true, "bytes.ToUpper": true, "bytes.Count": true,
+	"bytes.ReplaceAll": true, "bytes.NewBuffer": true, "bytes.NewReader": true, "bytes.NewBufferString": true, "strings.NewReader": true, "bytes.Split": true, "bytes.Title": true, "bytes.ToUpper": true, "bytes.Count": true,
 	"encoding/base64.(*Encoding).DecodedLen": true, "encoding/base64.(*Encoding).EncodedLen": true,
 	"sort.SearchInts": true, "os.Getpagesize": true,
 }
 
 // modset computes (memoised, by global fix-point) what a function may write.
 func (E *Engine) modset(fn *ssa.Function) *ModSet {
-	if len(E.modsets) == 0 {
-		E.computeModsets()
-	}
-	if m, ok := E.modsetsM[fn]; ok {
-		return m
+	if E.inRepo(fn) {
+		if m := E.modsetFromSummary(fn); m != nil {
+			return m
+		}
 	}
 	return E.externalModset(fn, nil)
 }
